@@ -171,6 +171,52 @@ def group_no_black_case(rng, fmt):
     return {"id": f"group-no-black:{fmt}:{rng.getrandbits(32)}", "seed": 0, "fmt": fmt, "svgs": [svg], "config": cfg, "codepoints": [[0xE000]], "family": "group-no-black"}
 
 
+def current_color_var_case(rng, fmt):
+    """`currentColor` reached through a palette variable — as a fill and as a gradient stop: it is the foreground colour all the same"""
+    n1, n2 = rng.sample([1, 2, 3, 4], 2)
+    other = rng.choice(["#FF0000", "#00AA00", "#0000FF"])
+    svg = ('<svg xmlns="http://www.w3.org/2000/svg" viewBox="0 0 100 100"><defs><linearGradient id="g" gradientUnits="userSpaceOnUse" x1="10" y1="60" x2="90" y2="60">'
+           f'<stop offset="0" stop-color="var(--color{n2}, currentColor)"/><stop offset="1" stop-color="{other}"/></linearGradient></defs>'
+           f'<path d="M10,10 L50,10 L50,40 L10,40 Z" fill="var(--color{n1}, currentColor)"/>'
+           f'<path d="M10,50 L90,50 L90,90 L10,90 Z" fill="url(#g)"/><path d="M60,10 L90,10 L90,40 L60,40 Z" fill="{other}"/></svg>')
+    cfg = {"color_format": fmt, "upem": 1024, "ascender": 950, "descender": -250, "width": 1275, "reuse_tolerance": -1, "keep_glyph_names": True}
+    return {"id": f"current-color-var:{fmt}:{rng.getrandbits(32)}", "seed": 0, "fmt": fmt, "svgs": [svg], "config": cfg, "codepoints": [[0xE000]], "family": "current-color-var"}
+
+
+def check_current_color(res, case, out):
+    """every paint must resolve inside CPAL or be the foreground index; this glyph uses the foreground colour once as a fill (and, in COLRv1, once as a stop)"""
+    font = out["font"]
+    npal = len(font["CPAL"].palettes[0])
+    refs = []
+    if font["COLR"].version == 0:
+        for layers in font["COLR"].ColorLayers.values():
+            refs += [l.colorID for l in layers]
+        want_fg = 1
+    else:
+        t = font["COLR"].table
+        layers = t.LayerList.Paint if t.LayerList else []
+
+        def walk(p):
+            if p.Format == 1:
+                for q in layers[p.FirstLayerIndex:p.FirstLayerIndex + p.NumLayers]:
+                    walk(q)
+            if p.Format == 2:
+                refs.append(p.PaletteIndex)
+            if getattr(p, "ColorLine", None) is not None:
+                refs.extend(st.PaletteIndex for st in p.ColorLine.ColorStop)
+            for attr in ("Paint", "SourcePaint", "BackdropPaint"):
+                ch = getattr(p, attr, None)
+                if ch is not None:
+                    walk(ch)
+        for rec in t.BaseGlyphList.BaseGlyphPaintRecord:
+            walk(rec.Paint)
+        want_fg = 2
+    bad = [r for r in refs if r != 0xFFFF and r >= npal]
+    if bad or refs.count(0xFFFF) < want_fg:
+        res.add_cex(f"currentColor given through a palette variable is not the foreground index 0xFFFF (palette references {refs}, CPAL has {npal} entries)",
+                    {"case": case, "references": refs, "palette_entries": npal}, {"site": "font-current-color", "case": case["id"]})
+
+
 def suite_fonts(ctx, res, n):
     """CPAL + palette indices of real COLRv0/v1 builds (K-pipe)."""
     from harness import fontgen
@@ -179,17 +225,21 @@ def suite_fonts(ctx, res, n):
     cases += [same_rgba_case(ctx.rng, ["glyf_colr_1", "glyf_colr_0"][i % 2]) for i in range(max(4, n // 6))]
     cases += [fontgen.make_var_opacity_case(ctx.rng.getrandbits(32), fmt=["glyf_colr_1", "glyf_colr_0"][i % 2]) for i in range(max(4, n // 6))]
     cases += [group_no_black_case(ctx.rng, ["glyf_colr_1", "glyf_colr_0", "cff_colr_1"][i % 3]) for i in range(max(3, n // 8))]
+    cases += [current_color_var_case(ctx.rng, ["glyf_colr_1", "glyf_colr_0", "cff2_colr_1"][i % 3]) for i in range(max(3, n // 8))]
     for case in cases:
         out = fontgen.build(case)
         res.count(key=("font", stable_hash(case["id"])), nontrivial=True)
         if "err" in out:
             res.stat("font:err:" + out["err"])
-            if case.get("family") in ("group-no-black", "var-opacity") or case["id"].startswith("same-rgba"):
+            if case.get("family") in ("group-no-black", "var-opacity", "current-color-var") or case["id"].startswith("same-rgba"):
                 # these families declare no conflicting palette slots: a failure to build means a colour could not be resolved
                 res.add_cex("a font whose colours claim no conflicting palette slot fails to build: " + out["err"], {"case": case, "trace": out.get("trace")},
                             {"site": "font-cpal-build", "case": case["id"]})
             continue
         res.stat("font:ok")
+        if case.get("family") == "current-color-var":
+            check_current_color(res, case, out)
+            continue
         fontgen.check_palette_of_font(ctx, res, case, out)
 
 
